@@ -40,11 +40,12 @@ type vlhProtoOpts struct {
 	MaxBalLookback  uint64 // 0 = keep (320)
 	ExcludeExpired  bool   // ExcludeExpiredCirculation
 	SetExclude      bool
+	CatchpointLookback uint64 // 0 = keep
 }
 
 // vlhProto registers (once) a consensus version derived from the current one.
 func vlhProto(o vlhProtoOpts) protocol.ConsensusVersion {
-	name := protocol.ConsensusVersion(fmt.Sprintf("verif-c12c13-u%d-i%d-l%d-x%v%v", o.RewardUnit, o.RefreshInterval, o.MaxBalLookback, o.SetExclude, o.ExcludeExpired))
+	name := protocol.ConsensusVersion(fmt.Sprintf("verif-c12c13-u%d-i%d-l%d-x%v%v-c%d", o.RewardUnit, o.RefreshInterval, o.MaxBalLookback, o.SetExclude, o.ExcludeExpired, o.CatchpointLookback))
 	if _, ok := config.Consensus[name]; ok {
 		return name
 	}
@@ -66,6 +67,9 @@ func vlhProto(o vlhProtoOpts) protocol.ConsensusVersion {
 	}
 	if o.SetExclude {
 		p.ExcludeExpiredCirculation = o.ExcludeExpired
+	}
+	if o.CatchpointLookback != 0 {
+		p.CatchpointLookback = o.CatchpointLookback
 	}
 	p.ApprovedUpgrades = map[protocol.ConsensusVersion]uint64{}
 	config.Consensus[name] = p
@@ -115,7 +119,7 @@ func vlhQuietLog() logging.Logger {
 // lru = false sets DisableLedgerLRUCache: every (re)load of the trackers with the LRU caches on
 // allocates their 100000-entry pending-write buffers (~1 s), so histories with many reloads run
 // without them and a share of the histories (few reloads) runs with them.
-func vlhOpen(t *testing.T, rnd *vRand, cv protocol.ConsensusVersion, order []basics.Address, accts map[basics.Address]basics.AccountData, lru bool, st map[string]int) *vlhWorld {
+func vlhOpen(t *testing.T, rnd *vRand, cv protocol.ConsensusVersion, order []basics.Address, accts map[basics.Address]basics.AccountData, lru bool, st map[string]int, cfgOpts ...func(*config.Local)) *vlhWorld {
 	w := &vlhWorld{t: t, rnd: rnd, cv: cv, proto: config.Consensus[cv], idx: map[basics.Address]int{}, st: st}
 	for _, a := range order {
 		w.id(a)
@@ -127,6 +131,9 @@ func vlhOpen(t *testing.T, rnd *vRand, cv protocol.ConsensusVersion, order []bas
 	cfg.CatchpointInterval = 0
 	cfg.CatchpointTracking = -1
 	cfg.DisableLedgerLRUCache = !lru
+	for _, o := range cfgOpts {
+		o(&cfg)
+	}
 	cfg.VerifiedTranscationsCacheSize = 1000 // default 150000: 0.7 s of allocation per OpenLedger
 	bal := bookkeeping.MakeTimestampedGenesisBalances(accts, vlhSink, vlhPool, 1700000000)
 	var genHash crypto.Digest
